@@ -117,24 +117,9 @@ Qed.
 
 (* ------------------------------------------------------------------------------------------ *)
 
-Section Proofs.
-  Variable H : bytes -> bytes.
-  Variable E : bytes -> bytes -> bytes -> bytes.
-  Variable D : bytes -> bytes -> bytes -> option bytes.
+Section Split.
   Variable maxb : nat.
-
-  (* the three facts about the primitives that proofs below use; each names where *)
-  Definition DE_inverse := forall k iv p, D k iv (E k iv p) = Some p.
-  Definition E_length := forall k iv p, length (E k iv p) = (16 * (length p / 16 + 1))%nat.
-  Definition H_length := forall x, length (H x) = 48%nat.
-
   Notation split := (split maxb).
-  Notation build_stream := (build_stream H E maxb).
-  Notation create_stream := (create_stream H E maxb).
-  Notation make_blobs := (make_blobs H E).
-  Notation get_stream_hash := (get_stream_hash H).
-  Notation validate := (validate H).
-
   (* ---- split ---- *)
   Lemma split_concat f : (2 <= maxb)%nat -> concat (split f) = f.
   Proof. intro Hm. unfold C02.split. apply split_fuel_concat; lia. Qed.
@@ -169,8 +154,8 @@ Section Proofs.
   Qed.
 
   (* every ciphertext fits a blob when 16 divides MAX_BLOB_SIZE (2^21 does) *)
-  Lemma ciphertext_bound k iv p :
-    E_length -> (2 <= maxb)%nat -> (maxb mod 16 = 0)%nat -> (1 <= length p <= maxb - 1)%nat ->
+  Lemma ciphertext_bound (E : bytes -> bytes -> bytes -> bytes) k iv p :
+    (forall k iv p, length (E k iv p) = (16 * (length p / 16 + 1))%nat) -> (2 <= maxb)%nat -> (maxb mod 16 = 0)%nat -> (1 <= length p <= maxb - 1)%nat ->
     (16 <= length (E k iv p) <= maxb)%nat.
   Proof.
     intros HE Hm H16 Hp. rewrite HE.
@@ -182,6 +167,28 @@ Section Proofs.
     apply Nat.div_lt_upper_bound; lia.
   Qed.
 
+End Split.
+
+Set Default Proof Using "Type".
+Section Proofs.
+  Variable H : bytes -> bytes.
+  Variable E : bytes -> bytes -> bytes -> bytes.
+  Variable D : bytes -> bytes -> bytes -> option bytes.
+  Variable maxb : nat.
+  Local Ltac liaD := try clear D; try clear E; try clear H; lia.
+
+  (* the three facts about the primitives that proofs below use; each names where *)
+  Definition DE_inverse := forall k iv p, D k iv (E k iv p) = Some p.
+  Definition E_length := forall k iv p, length (E k iv p) = (16 * (length p / 16 + 1))%nat.
+  Definition H_length := forall x, length (H x) = 48%nat.
+
+  Notation split := (split maxb).
+  Notation build_stream := (build_stream H E maxb).
+  Notation create_stream := (create_stream H E maxb).
+  Notation make_blobs := (make_blobs H E).
+  Notation get_stream_hash := (get_stream_hash H).
+  Notation validate := (validate H).
+
   (* ---- make_blobs ---- *)
   Lemma make_blobs_length key ivf n ps : length (make_blobs key ivf n ps) = length ps.
   Proof. revert n. induction ps; intros; simpl; auto. Qed.
@@ -192,7 +199,7 @@ Section Proofs.
     induction ps as [|x r IH]; intros n i p Hi; [destruct i; discriminate|].
     destruct i as [|i]; simpl in *.
     - inversion Hi; subst. rewrite Nat.add_0_r. reflexivity.
-    - rewrite (IH (S n) i p Hi). replace (S n + i)%nat with (n + S i)%nat by lia. reflexivity.
+    - rewrite (IH (S n) i p Hi). replace (S n + i)%nat with (n + S i)%nat by liaD. reflexivity.
   Qed.
 
   (* ---- round trip ---- *)
@@ -245,14 +252,537 @@ Section Proofs.
   Proof.
     intros s n. destruct (build_blobs name key ivf f) as (Hb & Hc & _). fold s in Hb, Hc.
     rewrite Hb, Hc. repeat split.
-    - rewrite app_length, map_length, make_blobs_length. simpl. lia.
+    - rewrite app_length, map_length, make_blobs_length. simpl. liaD.
     - rewrite map_length, make_blobs_length. reflexivity.
     - rewrite nth_error_map, (make_blobs_nth key ivf _ 0 i p H0). reflexivity.
     - rewrite nth_error_app1.
       + rewrite nth_error_map, (make_blobs_nth key ivf _ 0 i p H0). reflexivity.
       + rewrite map_length, make_blobs_length. apply nth_error_Some. congruence.
-    - rewrite nth_error_app2 by (rewrite map_length, make_blobs_length; unfold n; lia).
+    - rewrite nth_error_app2 by (rewrite map_length, make_blobs_length; unfold n; liaD).
       rewrite map_length, make_blobs_length. unfold n. rewrite Nat.sub_diag. reflexivity.
   Qed.
 
+  (* ---- as_dict ---- *)
+  Lemma as_dict_id b : b_hash b <> Some [] -> as_dict b = b.
+  Proof.
+    destruct b as [n l iv [h|]]; unfold as_dict; cbn; intro Hne; [|reflexivity].
+    destruct h; [exfalso; apply Hne; reflexivity | reflexivity].
+  Qed.
+
+  Lemma as_dict_idem b : as_dict (as_dict b) = as_dict b.
+  Proof. destruct b as [n l iv [[|x h]|]]; reflexivity. Qed.
+
+  Lemma get_stream_hash_as_dict n k s bs : get_stream_hash n k s (map as_dict bs) = get_stream_hash n k s bs.
+  Proof.
+    unfold C02.get_stream_hash. rewrite map_map. f_equal. apply map_ext. intro. apply as_dict_idem.
+  Qed.
+
+  Lemma hexH_nonempty x : H_length -> hex (H x) <> [].
+  Proof.
+    intros HL E0. pose proof (hex_length (H x)) as Hl. rewrite E0, HL in Hl. simpl in Hl. liaD.
+  Qed.
+
+  Lemma ct_len_pos k iv p : E_length -> Z.of_nat (length (E k iv p)) <> 0%Z.
+  Proof. intro HE. rewrite HE. liaD. Qed.
+
+  (* ---- commitments: the exact preimages ---- *)
+  Definition data_pre (i : nat) (iv ct : bytes) : bytes :=
+    hex (H ct) ++ dec_of_Z (Z.of_nat i) ++ hex iv ++ dec_of_Z (Z.of_nat (length ct)).
+  Definition term_pre (n : nat) (iv : bytes) : bytes :=
+    dec_of_Z (Z.of_nat n) ++ hex iv ++ dec_of_Z 0.
+  Fixpoint data_pres (key : bytes) (ivf : nat -> bytes) (n : nat) (ps : list bytes) : list bytes :=
+    match ps with
+    | [] => []
+    | p :: r => data_pre n (ivf n) (E key (ivf n) p) :: data_pres key ivf (S n) r
+    end.
+  Definition blob_preimages key ivf f : list bytes :=
+    data_pres key ivf 0 (split f) ++ [term_pre (length (split f)) (ivf (length (split f)))].
+  Definition stream_preimage name key ivf f : bytes :=
+    hex (utf8_enc name) ++ hex key ++ hex (utf8_enc (sanitize name)) ++
+    H (concat (map H (blob_preimages key ivf f))).
+
+  Lemma created_as_dict key ivf : H_length -> forall ps n,
+    map as_dict (map fst (make_blobs key ivf n ps)) = map fst (make_blobs key ivf n ps).
+  Proof.
+    intros HL. induction ps as [|p r IH]; intro n; [reflexivity|].
+    cbn [C02.make_blobs map fst make_blob]. rewrite IH. f_equal.
+    apply as_dict_id. cbn. intro E0. inversion E0 as [E1]. exact (hexH_nonempty _ HL E1).
+  Qed.
+
+  Lemma hashsums_make key ivf : H_length -> E_length -> forall ps n tail X,
+    concat_opt (map (blob_hashsum H) tail) = Some X ->
+    concat_opt (map (blob_hashsum H) (map fst (make_blobs key ivf n ps) ++ tail)) =
+      Some (concat (map H (data_pres key ivf n ps)) ++ X).
+  Proof.
+    intros HL HE. induction ps as [|p r IH]; intros n tail X Ht; [exact Ht|].
+    cbn [C02.make_blobs map fst make_blob app data_pres concat concat_opt].
+    unfold blob_hashsum at 1, blob_pre. cbn [b_len b_hash b_num b_iv].
+    destruct (Z.eqb_spec (Z.of_nat (length (E key (ivf n) p))) 0) as [E0|_]; [exfalso; exact (ct_len_pos _ _ _ HE E0)|].
+    rewrite (IH (S n) tail X Ht). unfold data_pre. rewrite <- app_assoc. reflexivity.
+  Qed.
+
+  Theorem commitments name key ivf f :
+    H_length -> E_length ->
+    let s := build_stream name key ivf f in
+    d_shash (s_desc s) = hex (H (stream_preimage name key ivf f)) /\
+    s_sd_blob s = as_json (s_desc s) /\
+    s_sd_hash s = hex (H (s_sd_blob s)).
+  Proof.
+    intros HL HE s. split; [|split; reflexivity].
+    unfold s, C02.build_stream. cbn [s_desc d_shash].
+    unfold C02.get_stream_hash, calc_stream_hash, stream_pre, blobs_hashsum.
+    rewrite map_app, created_as_dict by exact HL. cbn [map].
+    rewrite (hashsums_make key ivf HL HE (split f) 0 _ (H (term_pre (length (split f)) (ivf (length (split f)))) ++ [])).
+    - unfold stream_preimage, blob_preimages. rewrite map_app, concat_app. cbn [map concat]. reflexivity.
+    - rewrite make_blobs_length. reflexivity.
+  Qed.
+
+  (* ---- validation ---- *)
+  Lemma numbered_ok_spec : forall bs i, numbered_ok i bs = true <->
+    (forall k b, nth_error bs k = Some b -> b_num b = Z.of_nat (i + k)).
+  Proof.
+    induction bs as [|x r IH]; intro i; cbn [numbered_ok].
+    - split; [intros _ k b Hk; destruct k; discriminate | reflexivity].
+    - rewrite andb_true_iff, IH, Z.eqb_eq. split.
+      + intros [Hx Hr] k b Hk. destruct k as [|k]; simpl in Hk.
+        * inversion Hk; subst. rewrite Nat.add_0_r. congruence.
+        * rewrite (Hr k b Hk). f_equal. liaD.
+      + intro Hall. split.
+        * rewrite (Hall 0%nat x eq_refl). f_equal. liaD.
+        * intros k b Hk. rewrite (Hall (S k) b Hk). f_equal. liaD.
+  Qed.
+
+  Lemma numbered_make key ivf : forall ps n,
+    numbered_ok n (map fst (make_blobs key ivf n ps) ++ [terminator ivf (n + length ps)]) = true.
+  Proof.
+    induction ps as [|p r IH]; intro n.
+    - cbn. rewrite Nat.add_0_r, Z.eqb_refl. reflexivity.
+    - cbn [C02.make_blobs map fst make_blob app numbered_ok b_num length]. rewrite Z.eqb_refl.
+      replace (n + S (length r))%nat with (S n + length r)%nat by liaD. apply IH.
+  Qed.
+
+  Lemma unhex_decode_hex x : utf8_ok x = true -> unhex_decode (hex x) = Ok x.
+  Proof. intro Hu. unfold unhex_decode. rewrite hex_ascii, unhex_hex, Hu. reflexivity. Qed.
+
+  Lemma data_len_nonzero key ivf : E_length -> forall ps n,
+    existsb (fun b => Z.eqb (b_len b) 0) (map fst (make_blobs key ivf n ps)) = false.
+  Proof.
+    intro HE. induction ps as [|p r IH]; intro n; [reflexivity|].
+    cbn [C02.make_blobs map fst make_blob existsb b_len]. rewrite IH.
+    destruct (Z.eqb_spec (Z.of_nat (length (E key (ivf n) p))) 0) as [E0|_]; [exfalso; exact (ct_len_pos _ _ _ HE E0) | reflexivity].
+  Qed.
+
+  Lemma existsb_rev {A} (p : A -> bool) l : existsb p (rev l) = existsb p l.
+  Proof.
+    induction l as [|x r IH]; [reflexivity|]. cbn [rev]. rewrite existsb_app, IH. cbn. rewrite orb_false_r. apply orb_comm.
+  Qed.
+
+  (* every descriptor that create_stream builds is accepted when its sd blob is loaded back *)
+  Theorem validate_accepts_created name key ivf f :
+    H_length -> E_length ->
+    utf8_ok (utf8_enc name) = true -> utf8_ok (utf8_enc (sanitize name)) = true ->
+    let d := s_desc (build_stream name key ivf f) in
+    validate (to_sdj d) = Ok d.
+  Proof.
+    intros HL HE Hn Hs d.
+    destruct (commitments name key ivf f HL HE) as (Hsh & _).
+    destruct (build_blobs name key ivf f) as (Hb & _ & Hk & Hnm & Hsg). fold d in Hsh, Hb, Hk, Hnm, Hsg.
+    assert (Hbs : map as_dict (d_blobs d) = d_blobs d).
+    { rewrite Hb, map_app, created_as_dict by exact HL. reflexivity. }
+    assert (Hgs : get_stream_hash (d_name d) (d_key d) (d_sugg d) (d_blobs d) = Some (d_shash d)).
+    { unfold d at 5, C02.build_stream. cbn [s_desc d_shash].
+      unfold d, C02.build_stream. cbn [s_desc d_name d_key d_sugg d_blobs].
+      unfold C02.get_stream_hash, calc_stream_hash, stream_pre, blobs_hashsum.
+      rewrite map_app, created_as_dict by exact HL. cbn [map].
+      rewrite (hashsums_make key ivf HL HE (split f) 0 _ (H (term_pre (length (split f)) (ivf (length (split f)))) ++ []))
+        by (rewrite make_blobs_length; reflexivity).
+      reflexivity. }
+    unfold C02.validate, to_sdj. cbn [j_blobs j_name j_sugg j_key j_shash].
+    rewrite Hbs, Hb, rev_app_distr. cbn [rev app terminator b_len b_hash].
+    cbn [Z.eqb negb].
+    rewrite existsb_rev, data_len_nonzero by exact HE.
+    pose proof (numbered_make key ivf (split f) 0) as Hno. cbn [Nat.add] in Hno. rewrite Hno. cbn [negb].
+    rewrite Hnm, Hsg, !unhex_decode_hex by assumption.
+    rewrite <- Hnm, <- Hsg, <- Hb.
+    unfold new_desc. rewrite Hgs.
+    destruct (d_shash d) as [|c t] eqn:Esh.
+    - exfalso. symmetry in Hsh. exact (hexH_nonempty _ HL Hsh).
+    - rewrite bytes_eqb_refl. rewrite <- Esh. destruct d; reflexivity.
+  Qed.
+
+  Lemma rev_eq_cons {A} (l : list A) x r : rev l = x :: r -> l = rev r ++ [x].
+  Proof. intro Hr. rewrite <- (rev_involutive l), Hr. reflexivity. Qed.
+
+  (* accepted => every consistency condition holds (contrapositive: each inconsistency is refused) *)
+  Theorem validate_sound j d : validate j = Ok d ->
+    exists init last name sugg,
+      j_blobs j = init ++ [last] /\ b_len last = 0%Z /\ b_hash last = None /\
+      Forall (fun b => b_len b <> 0%Z) init /\
+      (forall k b, nth_error (j_blobs j) k = Some b -> b_num b = Z.of_nat k) /\
+      unhex (j_name j) = Some name /\ utf8_ok name = true /\
+      unhex (j_sugg j) = Some sugg /\ utf8_ok sugg = true /\
+      get_stream_hash name (j_key j) sugg (j_blobs j) = Some (j_shash j) /\
+      d = mkDesc name (j_key j) sugg (j_blobs j) (j_shash j).
+  Proof.
+    unfold C02.validate. intro Hv.
+    destruct (rev (j_blobs j)) as [|last rinit] eqn:Er; [discriminate|].
+    destruct (Z.eqb_spec (b_len last) 0) as [Hl0|]; cbn [negb] in Hv; [|discriminate].
+    destruct (existsb (fun b => Z.eqb (b_len b) 0) rinit) eqn:Ez; [discriminate|].
+    destruct (b_hash last) eqn:Eh; [discriminate|].
+    destruct (numbered_ok 0 (j_blobs j)) eqn:En; cbn [negb] in Hv; [|discriminate].
+    unfold unhex_decode in Hv.
+    destruct (forallb _ (j_name j)); cbn [negb] in Hv; [|discriminate].
+    destruct (unhex (j_name j)) as [name|] eqn:Eun; [|discriminate].
+    destruct (utf8_ok name) eqn:Eok; [|discriminate].
+    destruct (forallb _ (j_sugg j)); cbn [negb] in Hv; [|discriminate].
+    destruct (unhex (j_sugg j)) as [sugg|] eqn:Eus; [|discriminate].
+    destruct (utf8_ok sugg) eqn:Eoks; [|discriminate].
+    destruct (new_desc H name (j_key j) sugg (j_blobs j) (j_shash j)) as [d0|] eqn:End; [|discriminate].
+    destruct (get_stream_hash name (j_key j) sugg (j_blobs j)) as [h|] eqn:Eg; [|discriminate].
+    destruct (bytes_eqb h (j_shash j)) eqn:Eb; [|discriminate].
+    apply bytes_eqb_eq in Eb. inversion Hv; subst d0.
+    exists (rev rinit), last, name, sugg.
+    apply rev_eq_cons in Er.
+    repeat match goal with |- _ /\ _ => split end; try assumption; try reflexivity.
+    - apply Forall_forall. intros b Hin Hb0. apply in_rev in Hin.
+      assert (existsb (fun b => Z.eqb (b_len b) 0) rinit = true); [|congruence].
+      apply existsb_exists. exists b. split; [exact Hin | apply Z.eqb_eq; exact Hb0].
+    - intros k b Hk. apply (proj1 (numbered_ok_spec _ _) En k b Hk).
+    - congruence.
+    - unfold new_desc in End. rewrite Eg in End. subst h.
+      destruct (j_shash j); inversion End; reflexivity.
+  Qed.
+
+  (* which check refuses first, with the error class of the code *)
+  Theorem validate_refuses j :
+    (j_blobs j = [] -> validate j = Err EIndex) /\
+    (forall init last, j_blobs j = init ++ [last] ->
+       (b_len last <> 0%Z -> validate j = Err ENoTerminator) /\
+       (b_len last = 0%Z -> Exists (fun b => b_len b = 0%Z) init -> validate j = Err EZeroData) /\
+       (b_len last = 0%Z -> Forall (fun b => b_len b <> 0%Z) init ->
+          (forall h, b_hash last = Some h -> validate j = Err ETermHash) /\
+          (b_hash last = None ->
+             (numbered_ok 0 (j_blobs j) = false -> validate j = Err EOrder) /\
+             (numbered_ok 0 (j_blobs j) = true -> forall name sugg h,
+                unhex_decode (j_name j) = Ok name -> unhex_decode (j_sugg j) = Ok sugg ->
+                get_stream_hash name (j_key j) sugg (j_blobs j) = Some h -> h <> j_shash j ->
+                validate j = Err EStreamHash)))).
+  Proof.
+    split.
+    - intro E0. unfold C02.validate. rewrite E0. reflexivity.
+    - intros init last Hb.
+      assert (Hr : rev (j_blobs j) = last :: rev init) by (rewrite Hb, rev_app_distr; reflexivity).
+      split; [|split].
+      + intro Hl. unfold C02.validate. rewrite Hr. destruct (Z.eqb_spec (b_len last) 0); [contradiction | reflexivity].
+      + intros Hl Hex. unfold C02.validate. rewrite Hr, Hl. cbn [Z.eqb negb].
+        replace (existsb (fun b => Z.eqb (b_len b) 0) (rev init)) with true; [reflexivity|].
+        symmetry. rewrite existsb_rev. apply existsb_exists. apply Exists_exists in Hex.
+        destruct Hex as (b & Hin & Hb0). exists b. split; [exact Hin | apply Z.eqb_eq; exact Hb0].
+      + intros Hl Hall.
+        assert (Hnz : existsb (fun b => Z.eqb (b_len b) 0) (rev init) = false).
+        { rewrite existsb_rev. destruct (existsb _ init) eqn:Ex; [|reflexivity].
+          apply existsb_exists in Ex. destruct Ex as (b & Hin & Hb0). apply Z.eqb_eq in Hb0.
+          rewrite Forall_forall in Hall. exfalso. exact (Hall b Hin Hb0). }
+        split.
+        * intros h Hh. unfold C02.validate. rewrite Hr, Hl. cbn [Z.eqb negb]. rewrite Hnz, Hh. reflexivity.
+        * intro Hh. split.
+          -- intro Hn. unfold C02.validate. rewrite Hr, Hl. cbn [Z.eqb negb]. rewrite Hnz, Hh, Hn. reflexivity.
+          -- intros Hn name sugg h Hnm Hsg Hg Hne. unfold C02.validate.
+             rewrite Hr, Hl. cbn [Z.eqb negb]. rewrite Hnz, Hh, Hn. cbn [negb]. rewrite Hnm, Hsg.
+             unfold new_desc. rewrite Hg.
+             destruct (bytes_eqb h (j_shash j)) eqn:Eb; [apply bytes_eqb_eq in Eb; contradiction|].
+             destruct (j_shash j); reflexivity.
+  Qed.
+
+  (* ---- the stream hash binds the content, up to an explicit SHA collision ---- *)
+  Definition collision : Prop := exists x y : bytes, x <> y /\ H x = H y.
+
+  (* fixed-width fields: 32 hex characters of IV, 96 of blob hash; numbered by position; a hash exactly on
+     the data blobs *)
+  Definition fixed_blob (i : nat) (b : blob) : Prop :=
+    b_num b = Z.of_nat i /\ length (b_iv b) = 32%nat /\
+    (if Z.eqb (b_len b) 0 then b_hash b = None else exists h, b_hash b = Some h /\ length h = 96%nat).
+  Fixpoint fixed_blobs (i : nat) (bs : list blob) : Prop :=
+    match bs with
+    | [] => True
+    | b :: r => fixed_blob i b /\ fixed_blobs (S i) r
+    end.
+
+  Lemma app_inv_len {A} : forall (a a' b b' : list A), length a = length a' -> a ++ b = a' ++ b' -> a = a' /\ b = b'.
+  Proof.
+    induction a as [|x a IH]; intros [|y a'] b b' Hl He; simpl in Hl; try discriminate.
+    - split; [reflexivity | exact He].
+    - simpl in He. inversion He; subst. destruct (IH a' b b' ltac:(liaD) H2) as [-> ->]. split; reflexivity.
+  Qed.
+
+  Lemma bytes_eq_dec (a b : bytes) : {a = b} + {a <> b}.
+  Proof. destruct (bytes_eqb a b) eqn:Eb; [left; apply bytes_eqb_eq; exact Eb | right; apply bytes_eqb_neq; exact Eb]. Qed.
+
+  Lemma hash_eq x y : H x = H y -> x = y \/ collision.
+  Proof. intro Hh. destruct (bytes_eq_dec x y) as [->|Hne]; [left; reflexivity | right; exists x, y; split; assumption]. Qed.
+
+  Lemma fixed_blob_as_dict i b : fixed_blob i b -> as_dict b = b.
+  Proof.
+    intros (_ & _ & Hh). apply as_dict_id. intro E0. rewrite E0 in Hh.
+    destruct (Z.eqb (b_len b) 0); [discriminate|]. destruct Hh as (h & Hh & Hl). inversion Hh; subst. discriminate.
+  Qed.
+
+  Lemma fixed_blobs_as_dict : forall bs i, fixed_blobs i bs -> map as_dict bs = bs.
+  Proof.
+    induction bs as [|b r IH]; intros i Hf; [reflexivity|]. destruct Hf as [Hb Hr].
+    cbn [map]. rewrite (fixed_blob_as_dict i b Hb), (IH (S i) Hr). reflexivity.
+  Qed.
+
+  Lemma blob_pre_inj i b1 b2 p : fixed_blob i b1 -> fixed_blob i b2 ->
+    blob_pre b1 = Some p -> blob_pre b2 = Some p -> b1 = b2.
+  Proof.
+    intros (Hn1 & Hi1 & Hh1) (Hn2 & Hi2 & Hh2) Hp1 Hp2.
+    destruct b1 as [n1 l1 iv1 h1], b2 as [n2 l2 iv2 h2]. unfold blob_pre in *. cbn [b_num b_len b_iv b_hash] in *.
+    subst n1 n2.
+    destruct (Z.eqb_spec l1 0) as [E1|E1], (Z.eqb_spec l2 0) as [E2|E2].
+    - subst. inversion Hp1 as [P1]. inversion Hp2 as [P2]. rewrite <- P1 in P2.
+      apply app_inv_head in P2. apply app_inv_len in P2; [|congruence]. destruct P2 as [-> _]. reflexivity.
+    - exfalso. destruct Hh2 as (h & -> & Hl). inversion Hp1 as [P1]. inversion Hp2 as [P2]. rewrite <- P1 in P2.
+      apply (f_equal (@length byte)) in P2. rewrite !app_length in P2. subst l1.
+      change (dec_of_Z 0) with (dec_of_N 0) in P2. rewrite dec_of_N_0 in P2. simpl in P2. liaD.
+    - exfalso. destruct Hh1 as (h & -> & Hl). inversion Hp1 as [P1]. inversion Hp2 as [P2]. rewrite <- P2 in P1.
+      apply (f_equal (@length byte)) in P1. rewrite !app_length in P1. subst l2.
+      change (dec_of_Z 0) with (dec_of_N 0) in P1. rewrite dec_of_N_0 in P1. simpl in P1. liaD.
+    - destruct Hh1 as (g1 & -> & Hl1). destruct Hh2 as (g2 & -> & Hl2).
+      inversion Hp1 as [P1]. inversion Hp2 as [P2]. rewrite <- P1 in P2.
+      apply app_inv_len in P2; [|congruence]. destruct P2 as [-> P2].
+      apply app_inv_head in P2. apply app_inv_len in P2; [|congruence]. destruct P2 as [-> P2].
+      apply dec_of_Z_inj in P2. subst. reflexivity.
+  Qed.
+
+  Lemma concat_opt_cons (x : option bytes) l c : concat_opt (x :: l) = Some c ->
+    exists a t, x = Some a /\ concat_opt l = Some t /\ c = a ++ t.
+  Proof.
+    cbn [concat_opt]. destruct x as [a|]; [|discriminate]. destruct (concat_opt l) as [t|]; [|discriminate].
+    intro E0. inversion E0. exists a, t. repeat split.
+  Qed.
+
+  Lemma blobs_inj : H_length -> forall bs1 bs2 i c,
+    fixed_blobs i bs1 -> fixed_blobs i bs2 ->
+    concat_opt (map (blob_hashsum H) bs1) = Some c -> concat_opt (map (blob_hashsum H) bs2) = Some c ->
+    bs1 = bs2 \/ collision.
+  Proof.
+    intros HL. induction bs1 as [|b1 r1 IH]; intros [|b2 r2] i c F1 F2 C1 C2.
+    - left; reflexivity.
+    - exfalso. cbn in C1. inversion C1; subst. apply concat_opt_cons in C2. destruct C2 as (a & t & Ha & _ & Hc).
+      unfold blob_hashsum in Ha. destruct (blob_pre b2); [|discriminate]. inversion Ha; subst.
+      apply (f_equal (@length byte)) in Hc. rewrite app_length, HL in Hc. simpl in Hc. liaD.
+    - exfalso. cbn in C2. inversion C2; subst. apply concat_opt_cons in C1. destruct C1 as (a & t & Ha & _ & Hc).
+      unfold blob_hashsum in Ha. destruct (blob_pre b1); [|discriminate]. inversion Ha; subst.
+      apply (f_equal (@length byte)) in Hc. rewrite app_length, HL in Hc. simpl in Hc. liaD.
+    - cbn [map] in C1, C2.
+      apply concat_opt_cons in C1. destruct C1 as (a1 & t1 & Ha1 & Ht1 & Hc1).
+      apply concat_opt_cons in C2. destruct C2 as (a2 & t2 & Ha2 & Ht2 & Hc2).
+      unfold blob_hashsum in Ha1, Ha2.
+      destruct (blob_pre b1) as [p1|] eqn:P1; [|discriminate]. destruct (blob_pre b2) as [p2|] eqn:P2; [|discriminate].
+      inversion Ha1; inversion Ha2; subst a1 a2. rewrite Hc1 in Hc2.
+      apply app_inv_len in Hc2; [|rewrite !HL; reflexivity]. destruct Hc2 as [Hh Ht]. subst t2.
+      destruct F1 as [Fb1 Fr1], F2 as [Fb2 Fr2].
+      destruct (hash_eq _ _ Hh) as [Hp | Hcol]; [|right; exact Hcol]. subst p2.
+      pose proof (blob_pre_inj i b1 b2 p1 Fb1 Fb2 P1 P2) as ->.
+      destruct (IH r2 (S i) t1 Fr1 Fr2 Ht1 Ht2) as [-> | Hcol]; [left; reflexivity | right; exact Hcol].
+  Qed.
+
+  (* two descriptors with fixed-width key / IVs / blob hashes and names of the same length that have the same
+     stream hash are equal, or the proof hands back two different byte strings with the same H *)
+  Theorem stream_hash_binding n1 k1 s1 bs1 n2 k2 s2 bs2 h :
+    H_length -> length k1 = 32%nat -> length k2 = 32%nat -> length n1 = length n2 ->
+    fixed_blobs 0 bs1 -> fixed_blobs 0 bs2 ->
+    get_stream_hash n1 k1 s1 bs1 = Some h -> get_stream_hash n2 k2 s2 bs2 = Some h ->
+    (n1 = n2 /\ k1 = k2 /\ s1 = s2 /\ bs1 = bs2) \/ collision.
+  Proof.
+    intros HL Hk1 Hk2 Hn F1 F2 G1 G2.
+    unfold C02.get_stream_hash, calc_stream_hash, stream_pre, blobs_hashsum in G1, G2.
+    rewrite (fixed_blobs_as_dict _ _ F1) in G1. rewrite (fixed_blobs_as_dict _ _ F2) in G2.
+    destruct (concat_opt (map (blob_hashsum H) bs1)) as [c1|] eqn:C1; [|discriminate].
+    destruct (concat_opt (map (blob_hashsum H) bs2)) as [c2|] eqn:C2; [|discriminate].
+    inversion G1 as [G1']. inversion G2 as [G2']. rewrite <- G1' in G2'. apply hex_inj in G2'.
+    destruct (hash_eq _ _ G2') as [Hp | Hcol]; [|right; exact Hcol].
+    apply app_inv_len in Hp; [|rewrite !hex_length; liaD]. destruct Hp as [Hn' Hp]. apply hex_inj in Hn'.
+    apply app_inv_len in Hp; [|congruence]. destruct Hp as [Hk' Hp].
+    assert (Hls : length (hex s2) = length (hex s1)).
+    { apply (f_equal (@length byte)) in Hp. rewrite !app_length, !HL in Hp. liaD. }
+    apply app_inv_len in Hp; [|exact Hls]. destruct Hp as [Hs' Hc]. apply hex_inj in Hs'.
+    destruct (hash_eq _ _ Hc) as [Hcc | Hcol]; [|right; exact Hcol]. subst c1.
+    destruct (blobs_inj HL bs1 bs2 0 c2 F1 F2 C1 C2) as [-> | Hcol]; [|right; exact Hcol].
+    left. repeat split; congruence.
+  Qed.
+
+  (* the same for two descriptor blobs that both load *)
+  Definition widths (j : sdj) : Prop :=
+    length (j_key j) = 32%nat /\
+    Forall (fun b => length (b_iv b) = 32%nat /\
+                     match b_hash b with Some h => length h = 96%nat | None => True end) (j_blobs j).
+
+  Lemma concat_opt_all {A} (fn : A -> option bytes) : forall l c, concat_opt (map fn l) = Some c ->
+    forall b, In b l -> fn b <> None.
+  Proof.
+    induction l as [|x r IH]; intros c Hc b Hin; [contradiction|].
+    cbn [map] in Hc. apply concat_opt_cons in Hc. destruct Hc as (a & t & Ha & Ht & _).
+    destruct Hin as [<- | Hin]; [congruence | exact (IH t Ht b Hin)].
+  Qed.
+
+  Lemma fixed_blobs_of_nth : forall bs i,
+    (forall k b, nth_error bs k = Some b -> fixed_blob (i + k) b) -> fixed_blobs i bs.
+  Proof.
+    induction bs as [|x r IH]; intros i Hall; [exact I|]. split.
+    - specialize (Hall 0%nat x eq_refl). rewrite Nat.add_0_r in Hall. exact Hall.
+    - apply IH. intros k b Hk. specialize (Hall (S k) b Hk). replace (S i + k)%nat with (i + S k)%nat by liaD. exact Hall.
+  Qed.
+
+  Lemma accepted_fixed j d : validate j = Ok d -> widths j -> fixed_blobs 0 (j_blobs j).
+  Proof.
+    intros Hv (Hwk & Hwb).
+    destruct (validate_sound j d Hv) as (init & last & name & sugg & Hb & Hl0 & Hlh & Hnz & Hnum & _ & _ & _ & _ & Hg & _).
+    apply fixed_blobs_of_nth. intros k b Hk. cbn [Nat.add].
+    pose proof (nth_error_In _ _ Hk) as Hin.
+    rewrite Forall_forall in Hwb. destruct (Hwb b Hin) as [Hiv Hhl].
+    split; [exact (Hnum k b Hk)|]. split; [exact Hiv|].
+    rewrite Hb in Hin. apply in_app_or in Hin. destruct Hin as [Hin | [<- | []]].
+    - rewrite Forall_forall in Hnz. specialize (Hnz b Hin).
+      destruct (Z.eqb_spec (b_len b) 0) as [E0|_]; [contradiction|].
+      unfold C02.get_stream_hash, calc_stream_hash, stream_pre, blobs_hashsum in Hg.
+      destruct (concat_opt (map (blob_hashsum H) (map as_dict (j_blobs j)))) as [c|] eqn:Ec; [|discriminate].
+      rewrite map_map in Ec.
+      assert (Hin' : In b (j_blobs j)) by (rewrite Hb; apply in_or_app; left; exact Hin).
+      pose proof (concat_opt_all _ _ _ Ec b Hin') as Hsome.
+      unfold blob_hashsum, blob_pre in Hsome. cbn [as_dict b_len b_hash] in Hsome.
+      destruct (Z.eqb_spec (b_len b) 0) as [E0|_]; [contradiction|].
+      destruct (b_hash b) as [[|x h]|] eqn:Eh; try (exfalso; apply Hsome; reflexivity).
+      exists (x :: h). split; [reflexivity | exact Hhl].
+    - rewrite Hl0. cbn [Z.eqb]. exact Hlh.
+  Qed.
+
+  Theorem accepted_tampering_collides j1 j2 d1 d2 :
+    H_length -> validate j1 = Ok d1 -> validate j2 = Ok d2 -> widths j1 -> widths j2 ->
+    length (d_name d1) = length (d_name d2) -> j_shash j1 = j_shash j2 ->
+    d1 = d2 \/ collision.
+  Proof.
+    intros HL V1 V2 W1 W2 Hn Hs.
+    pose proof (accepted_fixed j1 d1 V1 W1) as F1. pose proof (accepted_fixed j2 d2 V2 W2) as F2.
+    destruct (validate_sound j1 d1 V1) as (_ & _ & n1 & s1 & _ & _ & _ & _ & _ & _ & _ & _ & _ & G1 & D1).
+    destruct (validate_sound j2 d2 V2) as (_ & _ & n2 & s2 & _ & _ & _ & _ & _ & _ & _ & _ & _ & G2 & D2).
+    subst d1 d2. cbn [d_name] in Hn. rewrite <- Hs in G2.
+    destruct (stream_hash_binding n1 (j_key j1) s1 (j_blobs j1) n2 (j_key j2) s2 (j_blobs j2) (j_shash j1)
+                HL (proj1 W1) (proj1 W2) Hn F1 F2 G1 G2) as [(-> & -> & -> & ->) | Hcol]; [|right; exact Hcol].
+    left. rewrite Hs. reflexivity.
+  Qed.
+
+  (* without the width / name-length conditions the stream hash does NOT bind the fields: its preimage is a plain
+     concatenation.  'ab.txt' with key 3031...3e3f and 'ab.tx' with key 743031...3e (suggested name '?ab.txt')
+     have the same stream hash for every blob list and every H. *)
+  Definition shift_name1 : bytes := bytes_of_Ns [97; 98; 46; 116; 120; 116]%N.
+  Definition shift_key1 : bytes := hex (bytes_of_Ns [48; 49; 50; 51; 52; 53; 54; 55; 56; 57; 58; 59; 60; 61; 62; 63]%N).
+  Definition shift_name2 : bytes := bytes_of_Ns [97; 98; 46; 116; 120]%N.
+  Definition shift_key2 : bytes := hex (bytes_of_Ns [116; 48; 49; 50; 51; 52; 53; 54; 55; 56; 57; 58; 59; 60; 61; 62]%N).
+  Definition shift_sugg2 : bytes := bytes_of_Ns [63; 97; 98; 46; 116; 120; 116]%N.
+
+  Lemma boundary_shift_not_bound bs :
+    get_stream_hash shift_name1 shift_key1 shift_name1 bs = get_stream_hash shift_name2 shift_key2 shift_sugg2 bs /\
+    shift_key1 <> shift_key2 /\ length shift_key1 = 32%nat /\ length shift_key2 = 32%nat.
+  Proof.
+    split; [|split; [|split]].
+    - unfold C02.get_stream_hash, calc_stream_hash, stream_pre.
+      destruct (blobs_hashsum H (map as_dict bs)) as [hb|]; [|reflexivity].
+      assert (Hpre : hex shift_name1 ++ shift_key1 ++ hex shift_name1 ++ hb =
+                     hex shift_name2 ++ shift_key2 ++ hex shift_sugg2 ++ hb) by (vm_compute; reflexivity).
+      rewrite Hpre. reflexivity.
+    - intro E0. apply (f_equal (fun l => map N_of_byte l)) in E0. vm_compute in E0. discriminate.
+    - vm_compute. reflexivity.
+    - vm_compute. reflexivity.
+  Qed.
+
 End Proofs.
+
+(* ------------------------------------------------------------------------------------------ *)
+(* sanitize_file_name *)
+
+Definition safe_cp (c : N) : Prop := is_illegal c = false /\ is_ctrl c = false.
+
+Lemma safe_cp_spec c : safe_cp c ->
+  (32 <= c /\ c <> 47 /\ c <> 92 /\ c <> 60 /\ c <> 62 /\ c <> 58 /\ c <> 34 /\ c <> 124 /\ c <> 63 /\ c <> 42)%N.
+Proof.
+  unfold safe_cp, is_illegal, is_ctrl. intros [Hi Hc].
+  repeat (apply orb_false_iff in Hi; destruct Hi as [Hi ?]).
+  repeat match goal with Hx : (_ =? _)%N = false |- _ => apply N.eqb_neq in Hx end.
+  apply N.ltb_ge in Hc. repeat split; assumption.
+Qed.
+
+Lemma match_here_unsafe st a r : safe_cp a \/ exists k, match_here st (a :: r) = Some (S k).
+Proof.
+  unfold safe_cp, match_here.
+  destruct (is_illegal a) eqn:Ei.
+  - right. cbn [run]. rewrite Ei. eexists. reflexivity.
+  - destruct (is_ctrl a) eqn:Ec.
+    + right. cbn [run]. rewrite Ec. eexists. reflexivity.
+    + left. split; reflexivity.
+Qed.
+
+Lemma strip_go_In : forall s skip st c, In c (strip_go skip st s) -> In c s /\ safe_cp c.
+Proof.
+  induction s as [|a r IH]; intros skip st c Hin; [contradiction|].
+  cbn [strip_go] in Hin. destruct skip as [|k].
+  - destruct (match_here st (a :: r)) as [[|k]|] eqn:Em.
+    + destruct Hin as [<- | Hin].
+      * split; [left; reflexivity|]. destruct (match_here_unsafe st a r) as [Hs | (k & Hk)]; [exact Hs | congruence].
+      * destruct (IH _ _ _ Hin) as [H1 H2]. split; [right; exact H1 | exact H2].
+    + destruct (IH _ _ _ Hin) as [H1 H2]. split; [right; exact H1 | exact H2].
+    + destruct Hin as [<- | Hin].
+      * split; [left; reflexivity|]. destruct (match_here_unsafe st a r) as [Hs | (k & Hk)]; [exact Hs | congruence].
+      * destruct (IH _ _ _ Hin) as [H1 H2]. split; [right; exact H1 | exact H2].
+  - destruct (IH _ _ _ Hin) as [H1 H2]. split; [right; exact H1 | exact H2].
+Qed.
+
+Lemma strip_In s c : In c (strip s) -> In c s /\ safe_cp c.
+Proof. apply strip_go_In. Qed.
+
+Lemma default_safe c : In c default_name -> safe_cp c.
+Proof.
+  unfold default_name. cbn [In]. intro Hin.
+  repeat (destruct Hin as [<- | Hin]; [split; reflexivity|]). contradiction.
+Qed.
+
+Lemma In_firstn {A} : forall n (l : list A) x, In x (firstn n l) -> In x l.
+Proof. induction n; intros [|y l] x Hin; simpl in *; try contradiction. destruct Hin; [left | right]; auto. Qed.
+Lemma In_skipn {A} : forall n (l : list A) x, In x (skipn n l) -> In x l.
+Proof. induction n; intros [|y l] x Hin; simpl in *; try contradiction; auto. Qed.
+
+Lemma splitext_In p fn ext c : splitext p = (fn, ext) -> In c fn \/ In c ext -> In c p.
+Proof.
+  unfold splitext. intro Hs.
+  destruct (rfind is_dot p) as [di|].
+  - destruct (_ && _).
+    + inversion Hs; subst. intros [Hin | Hin]; [eapply In_firstn | eapply In_skipn]; exact Hin.
+    + inversion Hs; subst. intros [Hin | []]. exact Hin.
+  - inversion Hs; subst. intros [Hin | []]. exact Hin.
+Qed.
+
+Theorem sanitize_safe name :
+  sanitize name <> [] /\
+  forall c, In c (sanitize name) -> safe_cp c /\ (In c name \/ In c default_name).
+Proof.
+  unfold sanitize. destruct (splitext name) as [fn ext] eqn:Es.
+  assert (Hfn : forall c, In c (strip fn) -> safe_cp c /\ (In c name \/ In c default_name)).
+  { intros c Hin. destruct (strip_In _ _ Hin) as [H1 H2]. split; [exact H2|]. left. eapply splitext_In; eauto. }
+  assert (Hext : forall c, In c (strip ext) -> safe_cp c /\ (In c name \/ In c default_name)).
+  { intros c Hin. destruct (strip_In _ _ Hin) as [H1 H2]. split; [exact H2|]. left. eapply splitext_In; eauto. }
+  assert (Hdf : forall c, In c default_name -> safe_cp c /\ (In c name \/ In c default_name)).
+  { intros c Hin. split; [apply default_safe; exact Hin | right; exact Hin]. }
+  destruct (strip fn) as [|x fr] eqn:Ef; destruct (Nat.ltb 1 (length (strip ext))); split;
+    try (intros c Hin; try (apply in_app_or in Hin; destruct Hin as [Hin | Hin]); auto; fail);
+    try discriminate.
+Qed.
+
+Theorem sanitize_safe_chars name :
+  sanitize name <> [] /\
+  forall c, In c (sanitize name) ->
+    (32 <= c /\ c <> 47 /\ c <> 92 /\ c <> 60 /\ c <> 62 /\ c <> 58 /\ c <> 34 /\ c <> 124 /\ c <> 63 /\ c <> 42)%N.
+Proof.
+  destruct (sanitize_safe name) as [Hne Hall]. split; [exact Hne|].
+  intros c Hin. apply safe_cp_spec. exact (proj1 (Hall c Hin)).
+Qed.
